@@ -168,7 +168,8 @@ OP1 = B(2, 3)
 
 @obligation(quick=150, thorough=500,
             partitions_quick=[f"is_delete == {d} and f1 {c}" for d in (True, False) for c in ("== 0", "== 1", ">= 2")],
-            partitions_thorough=[f"is_delete == {d} and op1 == {o} and f1 == {f}" for d in (True, False) for o in (0, 1, 2) for f in range(6)],
+            partitions_thorough=[f"is_delete == {d} and op1 == {o} and f1 == {f}" for d in (True, False) for o in (0, 1, 2) for f in range(6)
+                                 if not (d and f == 5)],   # f1 == 5 forces f2 == 5, excluded for deletes by the pre
             what="script: upsert h0,h1,h2 ; optional status update / re-upsert ; query or delete with 0..2 filters ; final listing — SQLite == memory == conjunction spec",
             bounds={"filters": "any 0..2 of {handler_id, run_id, workflow_name, status, is_idle}", "list shape": "MODES shapes (empty, hit, hit+other, miss, other)",
                     "middle op": "none / update_handler_status(completed, result) / re-upsert h0 with other name+idle (quick: status update only before queries on status / is_idle / no filter; re-upsert thorough only)", "last op": "query / delete"})
